@@ -657,7 +657,7 @@ fn limit_cases(t: Tier) -> Vec<crate::props::c16::LimitCase> {
     // the quick tier takes the fast-start case only (one ~9 GiB history); audio configured, offsets crossing 2^32
     let mut v: Vec<_> = crate::props::c16::limit_cases(t).into_iter().filter(|c| t == Tier::Thorough || c.fast_start).collect();
     // audio configured but never written, payload a few hundred bytes below the limit
-    v.push(crate::props::c16::LimitCase { fast_start: true, audio: true, below: 700 });
+    v.push(crate::props::c16::LimitCase { fast_start: true, audio: true, below: 700, small_tail: false });
     v
 }
 fn s_key_any(t: Tier) -> BoxedStrategy<crate::props::c07::KeyCase> {
